@@ -104,7 +104,14 @@ def run(ctx):
         "evaluations": summary.get("cases", 0),
         "programs": summary.get("programs", 0),
         "distinct_nontrivial": summary.get("distinct_nontrivial", 0),
-        "rule": "typed random programs (grammar- and type-directed; 0-3 helper functions + entry; budgets on nodes, "
+        "rule": "TWO program families.  (1) pass-shape family (harness/h01/src/shapes.rs): programs ENUMERATED, not sampled, "
+                "per optimisation pass of cairo-lang-lowering (const folding rules incl. 0 / 1 / inc / dec / both-constant / "
+                "upcast / downcast with felt252 literals near P, return_optimization + split_structs on destructure/"
+                "reconstruct in every permutation and duplication, enum re-wrap, reboxing merges, branch inversion / match "
+                "optimizer / dedup_blocks shapes, cse / reorder / variable forwarding, trim_unused_params / specialisation / "
+                "inline attributes, array rules, loop-carried variables): the trigger pattern and its near misses, with "
+                "run-time operands (boundary argument vectors MIN, MIN+1, -1, 0, 1, 2, MAX-1, MAX) and literal operands.  "
+                "(2) typed random programs (grammar- and type-directed; 0-3 helper functions + entry; budgets on nodes, "
                 "depth and static cost; loops bounded by a counter the body cannot assign, recursion by a depth "
                 "parameter) x argument vectors (benign small values, zeros, type extremes, seeded boundary/uniform "
                 "mixes).  A case = (program, argument vector) run once on the real pipeline and once in Coq.  "
@@ -114,6 +121,7 @@ def run(ctx):
             "programs", "cases", "programs_panic_free_on_some_input", "programs_panicking_on_some_input",
             "panic_free_pct", "panicking_pct", "panic_cases", "panic_kinds", "constructs", "generated_nodes",
             "max_block_depth", "regenerated_for_cost", "generator_interp_stuck", "rejected_by_compiler",
+            "shape_programs", "shape_families",
             "sierra_statements", "crates")},
         "traces_validated_against_impl": summary.get("cases", 0),
         "correspondence_disagreements": len(corr_bad),
